@@ -16,6 +16,16 @@ Proof. intros H H1 x [<-|Hx]; auto. Qed.
 Lemma wo_nil (P : obj -> Prop) : writes_only P [].
 Proof. intros x []. Qed.
 
+Lemma wo_grp_run_gen (P : obj -> Prop) o sc g rs :
+  (forall i, P (OAct (AChk sc g i))) -> P (OChecks sc g) -> writes_only P (fst (grp_run o sc g rs)).
+Proof.
+  intros Ha Hc. unfold grp_run. pose proof (wo_grp_acts o sc g rs 0) as H. destruct (grp_acts o sc g 0 rs) as [t v]. cbn [fst] in *.
+  apply writes_only_app; [|apply writes_only_app].
+  - eapply writes_only_weaken; [|apply wo_marks]. intros x [i ->]. apply Ha.
+  - eapply writes_only_weaken; [|exact H]. intros x [i ->]. apply Ha.
+  - now apply wo_single.
+Qed.
+
 Lemma wo_grp_run o sc g rs : writes_only np (fst (grp_run o sc g rs)).
 Proof.
   unfold grp_run. pose proof (wo_grp_acts o sc g rs 0) as H. destruct (grp_acts o sc g 0 rs) as [t v]. cbn [fst] in *.
@@ -69,7 +79,10 @@ Proof.
   destruct (opt_grp_run o (SBlock b) GPost (g_post (bs_groups bs))) as [to vo].
   destruct (seqs_run o bs b 0 (bs_seqs bs) (b_seqs (b_init bs))) as [ts qs]. cbn [fst] in *.
   assert (Hw : forall st, writes_only np [W (OBlock b) st 0 false]) by (intro; apply wo_single; discriminate).
-  destruct (present (g_bypass (bs_groups bs)) && vb); [|destruct (vp && vc); [destruct (exceeded bs (seqs_view bs qs))|]];
+  assert (Hcons : forall st tr, writes_only np tr -> writes_only np (W (OBlock b) st 0 false :: tr))
+    by (intros; apply wo_cons; [discriminate|assumption]).
+  destruct (present (g_bypass (bs_groups bs)) && vb);
+    [|destruct (vp && vc); [destruct (exceeded bs (seqs_view bs qs)); [|destruct vo]|]];
     cbn [fst]; (apply wo_cons; [discriminate|]); repeat (apply writes_only_app; auto).
 Qed.
 
